@@ -66,12 +66,22 @@ static cache_page PGO0, PGO1, PGO2, PGO3, SRCO;
 #else
 static _Alignas(8) struct c10_page PGO0, PGO1, PGO2, PGO3, SRCO;
 #endif
-static cache_network NTO0, NTO1, NTO2;
+static cache_network NTO0, NTO1;
+#if C10_NN > 2
+static cache_network NTO2;
+#else
+#define NTO2 NTO1
+#endif
 static vbi_cache CAO;
 static void *pool_page(int i) { return i == 0 ? (void *) &PGO0 : i == 1 ? (void *) &PGO1 : i == 2 ? (void *) &PGO2 : (void *) &PGO3; }
 static void *pool_net(int i) { return i == 0 ? (void *) &NTO0 : i == 1 ? (void *) &NTO1 : (void *) &NTO2; }
 #endif
 
+#ifndef VERIF_CBMC
+/* allocation size hidden from the optimiser: cache_page is a variable-size struct by design (cache-priv.h), UBSan's
+ * object-size check would flag every header access of a short page once it can see the malloc size */
+static void *(*volatile c10_calloc)(size_t, size_t) = calloc;
+#endif
 static void *c10_alloc(size_t size)
 {
   int i;
@@ -103,7 +113,7 @@ static void *c10_alloc(size_t size)
 #ifdef VERIF_CBMC
     pg_ptr[i] = (cache_page *) pool_page(i);
 #else
-    pg_ptr[i] = (cache_page *) malloc(size);
+    pg_ptr[i] = (cache_page *) c10_calloc(1, size);
 #endif
     return pg_ptr[i];
   }
@@ -150,14 +160,20 @@ int _vbi_vasprintf(char **d, const char *t, va_list ap) { (void) t; (void) ap; *
 const char _zvbi_intl_domainname[] = "zvbi";
 
 /* ---------------------------------------------------------------- page alphabet */
+/* All three page numbers hash to bucket 111 (pgno % 113 == 111).  Two reasons: (1) they collide, so every chain
+ * operation is exercised with foreign page numbers on the same chain; (2) measured: CBMC's points-to sets are not
+ * refined by loop guards, so after FOR_ALL_NODES the list head itself, seen as a cache_page, stays a candidate for
+ * cp; for bucket 111 that phantom's ->network field overlays the integer counters behind hash[] (not a pointer),
+ * for any other bucket it overlays another list head and every later write through cp->network->cache becomes a
+ * symbolic-offset update of all objects (symex did not finish in 300 s). */
 #ifndef C10_PG0
-#define C10_PG0 0x100   /* bucket 30, BCD, magazine start page (special priority) */
+#define C10_PG0 0x151   /* BCD page, normal priority */
 #endif
 #ifndef C10_PG1
-#define C10_PG1 0x171   /* bucket 30 too (0x171 = 0x100 + 113): hash collision with a different pgno */
+#define C10_PG1 0x233   /* BCD page, other magazine, same bucket */
 #endif
 #ifndef C10_PG2
-#define C10_PG2 0x1A0   /* bucket 77, hex page: subpage key = S1 nibble */
+#define C10_PG2 0x1C2   /* hex page (subpage key = S1 nibble), same bucket */
 #endif
 #define NA 3
 static const int PGA[NA] = { C10_PG0, C10_PG1, C10_PG2 };
@@ -245,6 +261,9 @@ static unsigned ref_size(int fn, unsigned x26, unsigned x28)
   }
 }
 
+static int stat_zero(const struct ttx_page_stat *x)
+{ return x->page_type == 0 && x->charset_code == 0 && x->subcode == 0 && x->flags == 0 && x->n_subpages == 0 && x->max_subpages == 0 && x->subno_min == 0 && x->subno_max == 0; }
+
 /* The representation invariant, evaluated on the real memory.  Returns 1 iff it holds; fills *v. */
 #if defined(VERIF_NATIVE) && defined(C10_DEBUG)
 #define CHK(c) do { if (!(c)) { ok = 0; fprintf(stderr, "audit: line %d: %s\n", __LINE__, #c); } } while (0)
@@ -272,7 +291,11 @@ static int audit(struct view *v)
     v->n_cached[n] = net_ptr[n]->n_cached_pages; v->n_refd[n] = net_ptr[n]->n_referenced_pages; v->n_maxc[n] = net_ptr[n]->max_cached_pages;
     CHK(net_ptr[n]->zombie == 0 || net_ptr[n]->zombie == 1);
     if (!net_ptr[n]->zombie) nnz++;
-    for (a = 0; a < NA; a++) v->st[n][a] = net_ptr[n]->_pages[PGA[a] - 0x100];
+    for (a = 0; a < NA; a++) {
+      v->st[n][a] = net_ptr[n]->_pages[PGA[a] - 0x100];
+      /* frame: the statistics of the neighbouring page numbers (never stored by the harness) stay all-zero */
+      CHK(stat_zero(&net_ptr[n]->_pages[PGA[a] - 0x100 - 1]) && stat_zero(&net_ptr[n]->_pages[PGA[a] - 0x100 + 1]));
+    }
   }
   CHK(v->nn == nnets);
   v->ca_nets = CA->n_cached_networks; CHK(CA->n_cached_networks == (unsigned) nnz);
@@ -380,7 +403,7 @@ static void *take_page(int i, unsigned size, int live)
 #ifdef VERIF_CBMC
   pg_ptr[i] = (cache_page *) pool_page(i);
 #else
-  pg_ptr[i] = live ? (cache_page *) calloc(1, size) : NULL;   /* pool objects are zero-initialised statics under CBMC */
+  pg_ptr[i] = live ? (cache_page *) c10_calloc(1, size) : NULL;   /* pool objects are zero-initialised statics under CBMC */
 #endif
   pg_live[i] = live; pg_size[i] = size; if (live) n_alloc++;
   return pg_ptr[i];
@@ -390,7 +413,7 @@ static void *take_net(int n, int live)
 #ifdef VERIF_CBMC
   net_ptr[n] = (cache_network *) pool_net(n);
 #else
-  net_ptr[n] = live ? (cache_network *) calloc(1, sizeof(cache_network)) : NULL;
+  net_ptr[n] = live ? (cache_network *) c10_calloc(1, sizeof(cache_network)) : NULL;
 #endif
   net_live[n] = live; if (live) n_alloc++;
   return net_ptr[n];
@@ -412,9 +435,21 @@ static void link_list(struct node *head, struct node *n0, struct node *n1, struc
   }
 }
 
-static int BUILD_MAX_NETS = NN;
-#if NP > 3 || NN > 3
-#error "builder handles up to 3 pages / 3 networks"
+#if NN > 3
+#error "builder handles up to 3 networks"
+#endif
+/* number of pages / networks the builder creates: CONCRETE (grid), all of them live.  With symbolic liveness
+ * ca->memory_used is symbolic and symex explores delete_surplus_pages() behind `memory_used > memory_limit`
+ * (1 GB, unreachable) in every unref; concrete counts let constant propagation prune it. */
+#ifndef C10_NB
+#define C10_NB (NP < 3 ? NP : 3)
+#endif
+#ifndef C10_NNB
+#define C10_NNB (NN < 2 ? NN : 2)
+#endif
+#define NPB C10_NB
+#if C10_NB > 3 || C10_NB > C10_NP || C10_NNB > C10_NN
+#error "C10_NB <= min(3, C10_NP), C10_NNB <= C10_NN"
 #endif
 /* max_pages: number of page slots the state may use (the rest stays free for the operation) */
 static void build_state(int max_pages)
@@ -423,14 +458,12 @@ static void build_state(int max_pages)
   unsigned perm_n, perm_p, perm_r, perm_h[NA];
   struct node *nd[3];
   CA = vbi_cache_new();
-  for (n = 0; n < NN; n++) {
-    unsigned live = in_u8() & 1, ref = in_u8(), zombie = in_u8(), maxc = in_u8();
+  for (n = 0; n < C10_NNB; n++) {
+    unsigned live = 1, ref = in_u8(), zombie = in_u8(), maxc = in_u8();
     struct ttx_page_stat st[NA];
     cache_network *cn;
     for (a = 0; a < NA; a++) { st[a].page_type = in_u8(); st[a].charset_code = in_u8(); st[a].subcode = in_u16(); st[a].flags = in_u32();
       st[a].n_subpages = 0; st[a].max_subpages = in_u8(); st[a].subno_min = in_u8(); st[a].subno_max = in_u8(); }
-    if (n == 0) live = 1;
-    if (n >= BUILD_MAX_NETS) live = 0;
     V_ASSUME(ref <= 2 && zombie <= 1);
     cn = (cache_network *) take_net(n, (int) live);
     if (!live) continue;
@@ -438,12 +471,12 @@ static void build_state(int max_pages)
     for (a = 0; a < NA; a++) cn->_pages[PGA[a] - 0x100] = st[a];
     if (!zombie) CA->n_cached_networks++;
   }
-  for (i = 0; i < NP; i++) {
-    unsigned live = in_u8() & 1, net = in_u8(), subno = in_u16(), fnsel = in_u8(), ref = in_u8(), zombie = in_u8(), pri = in_u8(),
+  for (i = 0; i < NPB; i++) {
+    unsigned live = 1, net = in_u8(), subno = in_u16(), fnsel = in_u8(), ref = in_u8(), zombie = in_u8(), pri = in_u8(),
              nat = in_u8(), flags = in_u32(), m0 = in_u8();
     const int pgno = PGA[SPA[i]];
     int fn; cache_page *cp; cache_network *cn; struct ttx_page_stat *ps;
-    if (i >= max_pages) live = 0;
+    (void) max_pages;
     if (SRC_[i]) { V_ASSUME(ref >= 1 && ref <= 2 && zombie <= 1); } else { ref = 0; zombie = 0; }
     V_ASSUME(net < NN && pri <= 1 && fnsel <= 1);
     if (live) V_ASSUME(net_live[net] && key_ok(pgno, (int) subno));
@@ -462,20 +495,20 @@ static void build_state(int max_pages)
   for (a = 0; a < NA; a++) perm_h[a] = in_u8();
   V_ASSUME(perm_n < 6 && perm_p < 6 && perm_r < 6);
   /* networks list */
-  for (n = 0; n < 3; n++) { memb[n] = n < NN && net_live[n]; nd[n] = n < NN && net_ptr[n] ? &net_ptr[n]->node : &CA->networks; }
-  link_list(&CA->networks, nd[0], nd[1], nd[2], memb, NN, perm_n);
+  for (n = 0; n < 3; n++) { memb[n] = n < C10_NNB; nd[n] = n < C10_NNB ? &net_ptr[n]->node : &CA->networks; }
+  link_list(&CA->networks, nd[0], nd[1], nd[2], memb, C10_NNB, perm_n);
   /* hash chains, priority list, referenced list */
-  for (i = 0; i < 3; i++) nd[i] = i < NP && pg_ptr[i] ? &pg_ptr[i]->hash_node : &CA->priority;
+  for (i = 0; i < 3; i++) nd[i] = i < NPB && pg_ptr[i] ? &pg_ptr[i]->hash_node : &CA->priority;
   for (a = 0; a < NA; a++) if (bucket_first(a) == a) {
     V_ASSUME(perm_h[a] < 6);
-    for (i = 0; i < 3; i++) memb[i] = i < NP && pg_live[i] && PGA[SPA[i]] % HASH_SIZE == PGA[a] % HASH_SIZE && pg_ptr[i]->priority != CACHE_PRI_ZOMBIE;
-    link_list(&CA->hash[PGA[a] % HASH_SIZE], nd[0], nd[1], nd[2], memb, NP, perm_h[a]);
+    for (i = 0; i < 3; i++) memb[i] = i < NPB && pg_live[i] && PGA[SPA[i]] % HASH_SIZE == PGA[a] % HASH_SIZE && pg_ptr[i]->priority != CACHE_PRI_ZOMBIE;
+    link_list(&CA->hash[PGA[a] % HASH_SIZE], nd[0], nd[1], nd[2], memb, NPB, perm_h[a]);
   }
-  for (i = 0; i < 3; i++) nd[i] = i < NP && pg_ptr[i] ? &pg_ptr[i]->pri_node : &CA->priority;
-  for (i = 0; i < 3; i++) memb[i] = i < NP && pg_live[i] && !SRC_[i];
-  link_list(&CA->priority, nd[0], nd[1], nd[2], memb, NP, perm_p);
-  for (i = 0; i < 3; i++) memb[i] = i < NP && pg_live[i] && SRC_[i];
-  link_list(&CA->referenced, nd[0], nd[1], nd[2], memb, NP, perm_r);
+  for (i = 0; i < 3; i++) nd[i] = i < NPB && pg_ptr[i] ? &pg_ptr[i]->pri_node : &CA->priority;
+  for (i = 0; i < 3; i++) memb[i] = i < NPB && pg_live[i] && !SRC_[i];
+  link_list(&CA->priority, nd[0], nd[1], nd[2], memb, NPB, perm_p);
+  for (i = 0; i < 3; i++) memb[i] = i < NPB && pg_live[i] && SRC_[i];
+  link_list(&CA->referenced, nd[0], nd[1], nd[2], memb, NPB, perm_r);
   /* the history-dependent parts of the invariant that are free inputs: high-water marks, and a zombie network
    * exists only while somebody holds it or one of its pages */
   for (n = 0; n < NN; n++) if (net_live[n]) {
@@ -661,7 +694,7 @@ static void src_new(void)
 #ifdef VERIF_CBMC
   SRCP = (cache_page *) &SRCO;
 #else
-  SRCP = (cache_page *) calloc(1, C10_PSIZE);
+  SRCP = (cache_page *) c10_calloc(1, C10_PSIZE);
 #endif
 }
 V_HARNESS(h_put)
@@ -873,7 +906,6 @@ V_HARNESS(h_add_network)
 {
   int c, m, k, i, rec; cache_network *cn;
   V_INIT();
-  BUILD_MAX_NETS = NN - 1;
   build_state(NP);
   V_ASSERT(audit(&V0), "pre_audit");
 
@@ -1106,6 +1138,72 @@ V_HARNESS(h_seq)
   cache_network_unref(cn);
   vbi_cache_delete(CA);
   V_ASSERT(n_free == n_alloc && !ca_live, "seq_release_frees_every_allocation");
+  V_END();
+}
+
+/* _vbi_cache_foreach_page (the walk vbi_search runs): from a state in which the recorded subpage range of every
+ * page number covers its cached subpages, the walk visits the start page (if cached), then every other cached
+ * page of the network exactly once in page/subpage order, wraps once and stops where the callback says so */
+#ifndef C10_DIR
+#define C10_DIR 1
+#endif
+static struct { int n; cache_page *cp[8]; int wrapped[8]; } FE;
+static int fe_cb(cache_page *cp, vbi_bool wrapped, void *ud)
+{
+  (void) ud;
+  if (FE.n < 8) { FE.cp[FE.n] = cp; FE.wrapped[FE.n] = wrapped; }
+  FE.n++;
+  V_ASSERT(cp != NULL && cp->ref_count >= 1, "foreach_callback_gets_a_referenced_page");
+  return wrapped ? 1 : 0;
+}
+static int key_lt(const struct view *v, int i, int j) { return v->p_pgno[i] < v->p_pgno[j] || (v->p_pgno[i] == v->p_pgno[j] && v->p_subno[i] < v->p_subno[j]); }
+V_HARNESS(h_foreach)
+{
+  int pgno, subno, i, j, k, r, m[NP], nm = 0, exp[NP + 2], ne = 0, start = -1, first;
+  V_INIT();
+  build_state(NP);
+  subno = in_u8(); V_ASSUME(subno <= 1);
+  pgno = PGA[C10_P];
+  V_ASSERT(audit(&V0), "pre_audit");
+  for (i = 0; i < NP; i++) { m[i] = V0.p_live[i] && V0.p_net[i] == 0 && V0.p_pri[i] != CACHE_PRI_ZOMBIE; if (m[i]) nm++; }
+  V_ASSUME(nm >= 1);                                     /* a network holding nothing but zombies is not walked (see report) */
+  for (i = 0; i < NP; i++) if (m[i]) {
+    const struct ttx_page_stat *ps = &V0.st[0][pga_index(V0.p_pgno[i])];
+    V_ASSUME(V0.p_subno[i] <= 1 && ps->subno_min <= V0.p_subno[i] && V0.p_subno[i] <= ps->subno_max);
+    for (j = 0; j < i; j++) if (m[j]) V_ASSUME(V0.p_pgno[i] != V0.p_pgno[j] || V0.p_subno[i] != V0.p_subno[j]);
+  }
+  for (k = 0; k < NA; k++) V_ASSUME(V0.st[0][k].subno_max <= 1);
+
+  r = _vbi_cache_foreach_page(CA, net_ptr[0], pgno, subno, C10_DIR, fe_cb, NULL);
+
+  V_ASSERT(audit(&V1), "post_audit");
+  /* the walk looks pages up (get + unref): list ORDER changes (a visited page becomes most recently used), nothing else */
+  for (i = 0; i < NP; i++) V_ASSERT(page_same(&V0, &V1, i), "foreach_pages_untouched");
+  /* (looking up an unreferenced page of a zombie network revives the network: cache_page_ref) */
+  V_ASSERT(V1.n_ref[0] == V0.n_ref[0] && V1.n_cached[0] == V0.n_cached[0] && V1.n_refd[0] == V0.n_refd[0] && V1.n_zombie[0] <= V0.n_zombie[0]
+           && V1.ca_nets == V0.ca_nets + (unsigned) (V0.n_zombie[0] - V1.n_zombie[0]) && netseq_without(&V0, &V1, NULL, 0), "foreach_network_untouched");
+  for (k = 0; k < NA; k++) V_ASSERT(stat_eq(&V0.st[0][k], &V1.st[0][k]), "foreach_statistics_untouched");
+  for (k = 1; k < NN; k++) V_ASSERT(net_same(&V0, &V1, k), "foreach_other_networks_untouched");
+  V_ASSERT(V1.ca_mem == V0.ca_mem && V1.ca_pages == V0.ca_pages && V1.pn == V0.pn && V1.rn == V0.rn, "foreach_counters_untouched");
+  /* expected visits: start page, then the others in walk order, then (wrapped) the first page of the cycle */
+  for (i = 0; i < NP; i++) if (m[i] && V0.p_pgno[i] == pgno && V0.p_subno[i] == subno) start = i;
+  if (start >= 0) exp[ne++] = start;
+  for (k = 0; k < NP; k++) {                               /* selection sort of the pages beyond the start key */
+    int best = -1;
+    for (i = 0; i < NP; i++) if (m[i] && i != start) {
+      int beyond = C10_DIR > 0 ? (V0.p_pgno[i] > pgno || (V0.p_pgno[i] == pgno && V0.p_subno[i] > subno)) : (V0.p_pgno[i] < pgno || (V0.p_pgno[i] == pgno && V0.p_subno[i] < subno));
+      int taken = 0;
+      for (j = 0; j < NP + 2; j++) if (j < ne && exp[j] == i) taken = 1;
+      if (beyond && !taken && (best < 0 || (C10_DIR > 0 ? key_lt(&V0, i, best) : key_lt(&V0, best, i)))) best = i;
+    }
+    if (best >= 0) exp[ne++] = best;
+  }
+  first = -1;
+  for (i = 0; i < NP; i++) if (m[i] && (first < 0 || (C10_DIR > 0 ? key_lt(&V0, i, first) : key_lt(&V0, first, i)))) first = i;
+  V_ASSERT(r == 1 && FE.n == ne + 1, "foreach_visits_every_page_once_then_wraps");
+  for (k = 0; k < NP + 2; k++) if (k < ne) V_ASSERT(FE.cp[k] == pg_ptr[exp[k]] && !FE.wrapped[k], "foreach_order");
+  V_ASSERT(FE.cp[ne < 8 ? ne : 0] == pg_ptr[first] && FE.wrapped[ne < 8 ? ne : 0], "foreach_wraps_to_first_page");
+  if (ne >= 2) V_REACH("two_before_wrap");
   V_END();
 }
 
